@@ -11,7 +11,7 @@ META = {
     "technique": "Rocq proofs over a Gallina model (coq/DD/Pick.v) of the cube-picking walks of BDD, BCDD and ZBDD managers on well-formed node tables, for a stateful choice function: nothing iff unsatisfiable, implicant, cube entries, choice called at most once per level / only where both cofactors are satisfiable / respected, pick_cube_dd (incl. add_literal_to_cube) denotes exactly pick_cube's cube, pick_cube_dd_set = pick_cube_dd with the literal set's polarities, uniform picking = pick_cube with the count-weighted choice and trace probability 2^dc/#models as an identity over N; correspondence: the extracted model is run on every snapshot and compared with the real managers (cube vectors, call levels, returned edges, uniform support and exact probabilities), plus the property predicates on value tables (extracted cube_implies)",
     "category": "proof",
     "design_ref": "DESIGN.md section 5, C13",
-    "level_text": "Theorems (coq/Props/C13.v, 49, all closed under the global context) for every well-formed table of the kind (BddOK / BcddOK / ZbddOK, decided by extracted checkers that the driver evaluates on every snapshot), every edge, every stateful choice function: C13_*_pick_total (the model never fails), C13_*_pick_none_iff_false, C13_*_pick_implicant, C13_*_pick_cube_entries (entry = value written at the unique visit of the level; off-path levels don't-care, for ZBDD false), C13_*_choice_once_per_level (levels strictly increase; called with an inner node of that level, only where both cofactors are satisfiable; otherwise forced by an unsatisfiable cofactor / ZBDD: hi=lo don't-care), C13_*_choice_respected (recorded values = answers of the choice function replayed in path order with its state), C13_*_pick_same_cube (pick_cube_dd returns, in a well-formed extension of the table, an edge that holds exactly under the assignments agreeing with pick_cube's vector, same trace and final state; BCDD via add_literal_to_cube), C13_*_pick_dd_implicant (false iff false), C13_bdd/bcdd_pick_dd_set (with a cube-diagram literal set: equal to pick_cube_dd with choice = polarity in the set, false if absent; the set denotes the conjunction of its literals), C13_zbdd_pick_dd_set (result is a satisfiable cube implying the function; forced > positive/negative literal > don't-care where hi=lo else true), C13_*_uniform_model / _none_iff_false, C13_*_uniform_prob (for every run: product of count(child)/(count(then)+count(else)) over the drawn nodes = 2^(don't cares)/#models, numerator and denominator positive), C13_*_count_is_model_count, C13_uniform_branch_fraction (of q = m(ct+ce) equally likely draws exactly m*ct take the then-branch), C13_*_dont_care_count, C13_hypotheses_satisfiable. Tie to the code: for bdd, bcdd, zbdd all 256 three-variable functions under a seed-chosen order (all 6 in thorough) x all 8 choice vectors (pick_cube: vector and call levels equal to the model's; pick_cube_dd: returned edge identical to the model's and no node missing) x all 27 literal sets (pick_cube_dd_set: literal set rebuilt by the model's mk_cube, cube_lits hypothesis checked, returned edge identical, and equal to the model's pick_cube_dd with the set's polarities); random functions over 4..7 variables; pick_cube_uniform: 20000 draws per function on fixed seeds, every observed cube must be reproducible by the model and its frequency within 8 sigma + 10 of cnt * trace_weight (the exact branch-probability product), and the model's own pick_uniform is run on pseudo-random streams (result is an implicant). All property predicates of the statement are additionally evaluated on the value tables (ocaml/pick.ml with the extracted cube_implies).",
+    "level_text": "Theorems (coq/Props/C13.v, 49, all closed under the global context) for every well-formed table of the kind (BddOK / BcddOK / ZbddOK, decided by extracted checkers that the driver evaluates on every snapshot), every edge, every stateful choice function: C13_*_pick_total (the model never fails), C13_*_pick_none_iff_false, C13_*_pick_implicant, C13_*_pick_cube_entries (entry = value written at the unique visit of the level; off-path levels don't-care, for ZBDD false), C13_*_choice_once_per_level (levels strictly increase; called with an inner node of that level, only where both cofactors are satisfiable; otherwise forced by an unsatisfiable cofactor / ZBDD: hi=lo don't-care), C13_*_choice_respected (recorded values = answers of the choice function replayed in path order with its state), C13_*_pick_same_cube (pick_cube_dd returns, in a well-formed extension of the table, an edge that holds exactly under the assignments agreeing with pick_cube's vector, same trace and final state; BCDD via add_literal_to_cube), C13_*_pick_dd_implicant (false iff false), C13_bdd/bcdd_pick_dd_set (with a cube-diagram literal set: equal to pick_cube_dd with choice = polarity in the set, false if absent; the set denotes the conjunction of its literals), C13_zbdd_pick_dd_set (result is a satisfiable cube implying the function; forced > positive/negative literal > don't-care where hi=lo else true), C13_*_uniform_model / _none_iff_false, C13_*_uniform_prob (for every run: product of count(child)/(count(then)+count(else)) over the drawn nodes = 2^(don't cares)/#models, numerator and denominator positive), C13_*_count_is_model_count, C13_uniform_branch_fraction (of q = m(ct+ce) equally likely draws exactly m*ct take the then-branch), C13_*_dont_care_count, C13_hypotheses_satisfiable. Tie to the code: for bdd, bcdd, zbdd all 256 three-variable functions under a seed-chosen order (all 6 in thorough) x all 8 choice vectors (pick_cube: vector and call levels equal to the model's; pick_cube_dd: returned edge identical to the model's and no node missing) x all 27 literal sets (pick_cube_dd_set: literal set rebuilt by the model's mk_cube, cube_lits hypothesis checked, returned edge identical, and equal to the model's pick_cube_dd with the set's polarities); random functions over 4..7 variables; pick_cube_uniform: 20000 draws per function on fixed seeds, every observed cube must be reproducible by the model and its frequency within 8 sigma + 10 of cnt * trace_weight (the exact branch-probability product), and the model's own pick_uniform is run on pseudo-random streams (result is an implicant). All property predicates of the statement are additionally evaluated on the value tables (ocaml/pick.ml with the extracted cube_implies). Kept-cache stage (package C12s; driver ocaml/c12s_main.ml, snapshot after every operation): pick_cube_uniform with ONE long-lived F64 SatCountCache per case across drop / gc / reorder / add_vars and rebuilt functions on recycled node ids, 20000 draws per sampling; the histogram must satisfy the same predicates and match the exact branch-probability product; every observed cube is replayed by the extracted pick_cube, the closure's two sat_count_edge calls per asked node by the extracted uni_trace (coq/DD/SatCache.v; theorem C12_cache_uni_counts: the counts are those of the cofactors whatever the history of the cache object) on the model's copy of the cache, and the real cache map must equal the model's after every operation.",
     "level_note": "Trusted: Coq kernel, extraction, OCaml driver (trace parsing, comparisons, ocaml/pick.ml reference walk), Rust harness. Not modelled: the real random number generator and the f64 arithmetic of pick_cube_uniform_edge (t_count / (t_count + e_count) in F64; the model uses exact counts and an abstract stream of rational draws) - the statistical clause about the real RNG is a test with a wide tolerance, the theorem is about the branching probabilities; out-of-memory paths of pick_cube_dd* (C14); reference counting of the created nodes (C05). pick_cube_dd_set for BDD/BCDD is characterised for literal sets that are cube diagrams (what the API documents); for arbitrary literal_set edges only the model's behaviour is defined, nothing is claimed. ZBDD pick_cube_dd_set: the 'arbitrary choice' for a variable absent from the set at a node with distinct non-empty children is true (as in the code), for BDD/BCDD false.",
 }
 ALLOWED_AXIOMS = ()
